@@ -213,21 +213,28 @@ def eval_C10(item):
         if G.shape != want.shape or not np.allclose(G, want, rtol=0, atol=1e-9 * span * span):
             res['pred'].append('mom2_along(%r) = %r, quadratic forms of the normalised rows give %r' % (rows, G.tolist(), want.tolist()))
         # projection onto a subspace: principal axes do not depend on the lengths of the projection rows
-        if nd >= 3:
-            ax1 = [[1 if j == i else 0 for j in range(nd)] for i in range(2)]
+        for nr in (2, 3):
+            if nd < 3 or nr > nd:
+                continue
+            ax1 = [[1 if j == i else 0 for j in range(nd)] for i in range(nr)]
             ax2 = [[(2 if i == 0 else 5) * x for x in r] for i, r in enumerate(ax1)]
             with warnings.catch_warnings():
                 warnings.simplefilter('ignore')
                 p1 = make_stat(pos, wk, fb).projected_paxes(tuple(tuple(r) for r in ax1))
                 p2 = make_stat(pos, wk, fb).projected_paxes(tuple(tuple(r) for r in ax2))
-            sub = covf[:2, :2]
+            sub = covf[:nr, :nr]
+            bad_ = False
             for P in (p1, p2):
                 V = np.array([np.asarray(v, dtype=float) for v in P])
-                lam = [float(v.dot(sub).dot(v)) for v in V]
-                if V.shape != (2, 2) or not np.allclose(V.dot(V.T), np.eye(2), atol=1e-8) or lam[0] < lam[1] - 1e-9 * span * span or \
+                lam = [float(v.dot(sub).dot(v)) for v in V] if V.shape == (nr, nr) else []
+                if V.shape != (nr, nr) or not np.allclose(V.dot(V.T), np.eye(nr), atol=1e-8) or \
+                        any(lam[i] < lam[i + 1] - 1e-9 * span * span for i in range(nr - 1)) or \
                         any(not np.allclose(sub.dot(v), l * v, atol=1e-8 * span * span) for v, l in zip(V, lam)):
-                    res['pred'].append('projected_paxes are not the ordered orthonormal eigenvectors of the projected second moments')
+                    res['pred'].append('projected_paxes onto %d axes are not the ordered orthonormal eigenvectors of the projected second moments' % nr)
+                    bad_ = True
                     break
+            if bad_:
+                break
     # array-like (unhashable) direction arguments: accepted on a fresh object, and a buffer updated in place
     # between two calls on one object gives the result for its CURRENT contents
     d_alt = [d[i] + (1 if i == 0 else -1 if i == 1 else 0) for i in range(nd)]
@@ -750,6 +757,25 @@ def eval_C11(item):
                 pw = POW.get(k, 1)
                 if not close(val[k] ** pw, w ** pw, (10 * DX * DX + 10) ** pw, 1e-8):
                     res['pred'].append('%s differs between vaxis=%d and the transposed data with vaxis=0: %r vs %r' % (k, v, val[k], w))
+    # a structure far from the origin of a large mosaic: sizes do not depend on where it sits
+    if len(pos) >= 2:
+        offs = [10 ** 6 + 3, 2 ** 20, 10 ** 6][:dim]
+        posb = [tuple(c[i] + offs[i] for i in range(dim)) for c in pos]
+        with warnings.catch_warnings():
+            warnings.simplefilter('ignore')
+            try:
+                sb_ = cls(make_stat(posb, wk, fb), md)
+                bmaj, bmin = float(sb_.major_sigma.value), float(sb_.minor_sigma.value)
+                brad = float(sb_.radius.value)
+                bv = float(sb_.v_rms.value) if dim == 3 else None
+            except Exception as e:  # noqa
+                res['pred'].append('statistics of positions offset by %r raised %s' % (offs, type(e).__name__))
+                bmaj = None
+        if bmaj is not None:
+            if not close(bmaj ** 2, val['major'] ** 2, 1.0, 1e-5 * DX * DX) or not close(bmin ** 2, val['minor'] ** 2, 1.0, 1e-5 * DX * DX) or \
+                    (dim == 3 and not close(bv ** 2, val['vrms'] ** 2, 1.0, 1e-5 * DV * DV)):
+                res['pred'].append('sizes change when all positions are offset by %r: major %r -> %r, minor %r -> %r%s'
+                                   % (offs, val['major'], bmaj, val['minor'], bmin, '' if dim == 2 else ', v_rms %r -> %r' % (val['vrms'], bv)))
     # pixel values of a float16 / float32 image (each exactly representable): statistics are those of the
     # same numbers in double precision (the weight sums are not representable in the narrow dtype)
     if len(pos) >= 2:
@@ -938,6 +964,14 @@ def eval_C12(item):
                     m = ask_kv('wrap n=%d xs=%s' % (shape[ax], ','.join(str(int(x)) for x in idx[ax])))
                     idx[ax] = np.array([float(frac(x)) for x in m['wrapped'].split(',')])
             stat = cls(ScalarStatistic(s.values(subtree=True), tuple(idx)), md)
+            if 'area_exact' in fields:
+                # independently of the statistic classes: the number of distinct sky pixels of the structure
+                sky_axes = [0, 1] if nd == 2 else [a_ for a_ in range(3) if a_ != 0]     # default vaxis = 0
+                nsky = len(set(tuple(int(np.unravel_index(p_, shape)[a_]) for a_ in sky_axes) for p_ in obs['structs'][sid]['pixsub']))
+                dx2 = (item['dx'] or 1.0) ** 2
+                if not close(float(cat['area_exact'][row]), nsky * dx2, nsky * dx2, 1e-9):
+                    res['pred'].append('row of structure %d: area_exact %r, but it covers %d distinct sky pixels (x %r)'
+                                       % (sid, float(cat['area_exact'][row]), nsky, dx2))
             for f in fields:
                 want = getattr(stat, f)
                 got = cat[f][row]
